@@ -157,7 +157,7 @@ func Tokenize(usage string) ([]*Token, error) {
 				}
 			case o == '-':
 				pos++
-				if pos == eof || usage[pos] == ' ' {
+				if pos == eof || usage[pos] == ' ' || usage[pos] == '\t' {
 					tkp(TTDoubleDash, "--", start)
 					continue
 				}
